@@ -21,6 +21,12 @@ RULE = ("random device states (32-byte hashes per firmware hash descriptor parse
         "update ok / refused, reset, link failure + reconnection to a device with other keys) "
         "each followed by blockchainState and getPubKey against the device's new data. distinct = (command, state class, flags, "
         "network, sig shape, transition); non-trivial = every case (each carries random data)")
+RULE_ADDED = (
+              'Also: device data that looks like framing (status words, headers, padding); histories '
+              'of state-changing operations (advance total / partial / refused, ancestor update, '
+              'reset, link failure + other device) followed by the queries again; an exchange '
+              "answered later than the host's time-out ")
+RULE = RULE + " " + RULE_ADDED.strip()
 ASSUMPTIONS = [
     "simulated device + fake HID/TCP transports are trusted; firmware selectors are parsed "
     "from firmware/src/powhsm/src/bc_state.h and bc_nu.h, flag order from bc_state.c dump_flags",
